@@ -82,6 +82,40 @@ fn main() {
         std::process::exit(2);
     }
     let mode = args[1].as_str();
+    if mode == "sweep" {
+        // fvh sweep <aarch64|aarch64eb|mips|mipsel|ppc> --shard I --nshards N [--limit K]: lift every 32-bit word of
+        // the shard's slice of the encoding space (word = shard + k*nshards) once; meant to run under a sanitizer
+        // build, the sanitizers do the judging. Prints one JSON line with the number of words lifted.
+        use falcon::translator::Options;
+        let shard: u64 = arg_val(&args, "--shard").and_then(|s| s.parse().ok()).unwrap_or(0);
+        let nshards: u64 = arg_val(&args, "--nshards").and_then(|s| s.parse().ok()).unwrap_or(1);
+        let limit: u64 = arg_val(&args, "--limit").and_then(|s| s.parse().ok()).unwrap_or(u64::MAX);
+        let t = c05::translator(&args[2]);
+        let big = matches!(args[2].as_str(), "mips" | "ppc");
+        let opts = Options::default();
+        let first: u64 = arg_val(&args, "--start").and_then(|s| u64::from_str_radix(s.trim_start_matches("0x"), 16).ok()).unwrap_or(0);
+        // --every M --phase R: only the words congruent to R modulo M (a 1/M sample of the space, exhaustive when M = 1)
+        let every: u64 = arg_val(&args, "--every").and_then(|s| s.parse().ok()).unwrap_or(1).max(1);
+        let phase: u64 = arg_val(&args, "--phase").and_then(|s| s.parse().ok()).unwrap_or(0) % every;
+        let (mut n, mut ok, mut w) = (0u64, 0u64, (first / nshards) * nshards + shard);
+        let progress = args.iter().any(|a| a == "--progress");
+        install_panic_hook();
+        let start = Instant::now();
+        while w * every + phase <= u32::MAX as u64 && n < limit {
+            let word = (w * every + phase) as u32;
+            let b = if big { word.to_be_bytes() } else { word.to_le_bytes() };
+            if let Ok(Ok(_)) = fw::guard(|| t.translate_block(&b, 0x40_0000, &opts)) {
+                ok += 1;
+            }
+            n += 1;
+            if progress && n % (1 << 20) == 0 {
+                eprintln!("at 0x{:08x}", w * every + phase);
+            }
+            w += nshards;
+        }
+        println!("{}", serde_json::json!({"t": "sweep", "translator": args[2], "shard": shard, "words": n, "lifted": ok, "every": every, "phase": phase, "wall_s": start.elapsed().as_secs_f64()}));
+        return;
+    }
     if mode == "lift" {
         // fvh lift <translator> <hex bytes> <hex address>: print the lifted IL
         use falcon::translator::Options;
